@@ -116,13 +116,14 @@ def run(ctx):
 
     # ---- 2./3. binding
     scen_list = ["gen", "mid", "lo", "hi"]
-    both = ["memory", "pebble"] if thorough else ["memory"]
-    backends = {"gen": both, "mid": both, "lo": ["memory"], "hi": ["memory"]}
-    enum_backends = {"gen": ["memory"], "mid": both, "lo": ["memory"], "hi": ["memory"]}
     one = [False, True] if thorough else [False]
     new_state = {"gen": [False, True], "mid": [False, True], "lo": one, "hi": one}
     n_conf = {"gen": 200, "mid": 300, "lo": 200, "hi": 200} if thorough else {"gen": 30, "mid": 50, "lo": 40, "hi": 40}
     n_enum = {"gen": 30, "mid": 40, "lo": 25, "hi": 25} if thorough else {"gen": 5, "mid": 8, "lo": 7, "hi": 6}
+    # Pebble (thorough, from-genesis scenarios): every trial opens and closes a database directory,
+    # so only a slice of the behaviours is repeated there
+    n_pebble_conf = {"gen": 40, "mid": 60}
+    n_pebble_enum = {"gen": 4, "mid": 8}
     total_conf = total_enum = 0
     for i, sc in enumerate(scen_list):
         for pb in ([1, 99] if thorough else [1]):
@@ -131,21 +132,29 @@ def run(ctx):
             bs = ctx.tlc_simulate("chain", "CrashMBT.tla", "sim.cfg", depth=16 * want, seed=ctx.seed * 100 + i,
                                   files={"sim.cfg": txt}, timeout=900, max_behaviours=want)
             total_conf += len(bs)
-            res = engine(ctx, binary, "TestCrashConform",
-                                 {"consts": c, "behaviours": bs, "newState": new_state[sc], "backends": backends[sc],
-                                  "pruneBatch": pb, "plain": False}, timeout=3000)
-            ctx.absorb(res, "crash", "TestCrashConform")
-            vlib.log("engine TestCrashConform %s pb=%d: %d behaviours, %.0fs" % (sc, pb, len(bs), res["_wall_s"]))
+            runs = [("memory", bs)]
+            if thorough and pb == 1 and sc in n_pebble_conf:
+                runs.append(("pebble", bs[:n_pebble_conf[sc]]))
+            for be, part in runs:
+                res = engine(ctx, binary, "TestCrashConform",
+                             {"consts": c, "behaviours": part, "newState": new_state[sc], "backends": [be],
+                              "pruneBatch": pb, "plain": False}, timeout=3000)
+                ctx.absorb(res, "crash", "TestCrashConform")
+                vlib.log("engine TestCrashConform %s pb=%d %s: %d behaviours, %.0fs" % (sc, pb, be, len(part), res["_wall_s"]))
             txt, c = cfg_text(sc, faithful, faults=False, mbt=True, prune_batch=pb)
             want = n_enum[sc] if pb == 1 else n_enum[sc] // 4
             bs = ctx.tlc_simulate("chain", "CrashMBT.tla", "ops.cfg", depth=12 * want, seed=ctx.seed * 100 + 50 + i,
                                   files={"ops.cfg": txt}, timeout=900, max_behaviours=want)
             total_enum += len(bs)
-            res = engine(ctx, binary, "TestCrashEnum",
-                                 {"consts": c, "behaviours": bs, "newState": new_state[sc], "backends": enum_backends[sc],
-                                  "pruneBatch": pb, "plain": False}, timeout=3000)
-            ctx.absorb(res, "crash", "TestCrashEnum")
-            vlib.log("engine TestCrashEnum %s pb=%d: %d sequences, %.0fs" % (sc, pb, len(bs), res["_wall_s"]))
+            runs = [("memory", bs)]
+            if thorough and pb == 1 and sc in n_pebble_enum:
+                runs.append(("pebble", bs[:n_pebble_enum[sc]]))
+            for be, part in runs:
+                res = engine(ctx, binary, "TestCrashEnum",
+                             {"consts": c, "behaviours": part, "newState": new_state[sc], "backends": [be],
+                              "pruneBatch": pb, "plain": False}, timeout=3000)
+                ctx.absorb(res, "crash", "TestCrashEnum")
+                vlib.log("engine TestCrashEnum %s pb=%d %s: %d sequences, %.0fs" % (sc, pb, be, len(part), res["_wall_s"]))
     ctx.coverage["behaviours_conformance"] = total_conf
     ctx.coverage["sequences_fault_enumerated"] = total_enum
     ctx.assumptions += [
